@@ -36,7 +36,7 @@ vars == <<tid, l, s>>
 ToSet(q) == {q[k] : k \in 1..Len(q)}
 
 ClausesOf ==
-  [C10 |-> {"C10_StartupSchedule", "C10_RefreshDue", "C10_NoStaleSchedule", "C10_MinSpacing", "C10_QueryShape"},
+  [C10 |-> {"C10_StartupSchedule", "C10_RefreshDue", "C10_NoStaleSchedule", "C10_MinSpacing", "C10_QueryShape", "C10_RescueChain"},
    C13 |-> {"C13_KnownAnswersExact", "C13_RemainingTtl", "C13_QuThenQm", "C13_TcOnAllButLast", "C13_Suppressed",
             "C13_NotSuppressed", "C13_QuestionOnce"}]
 Own(clause) == \/ D.own = "ALL" \/ clause \in {"Trace_Malformed", "C15_NoException"} \/ clause \in ClausesOf[D.own]
@@ -50,7 +50,7 @@ InitState ==
   [rec |-> [i \in Ids |-> None], lastDid |-> 0, lastProc |-> -100000, lastQU |-> FALSE,
    active |-> FALSE, types |-> {}, delay |-> 0, forced |-> "none", bs |-> 0, r |-> -1, nstart |-> 0, lastQ |-> -1,
    hist |-> [ty \in Tys |-> [t |-> -100000, ka |-> {}]], canAns |-> {},
-   sat |-> {}, qT |-> -1, qKa |-> {}, qTypes |-> {}, qTc |-> FALSE, qNeed |-> {},
+   sat |-> {}, chain |-> {}, once |-> {}, soloed |-> {}, qT |-> -1, qKa |-> {}, qTypes |-> {}, qTc |-> FALSE, qNeed |-> {},
    hold |-> {}, lastTcSrc |-> 0,          \* truncated queries heard from the link, held per source until their continuation
    err |-> ""]
 
@@ -65,6 +65,20 @@ MissedDeadline(st, t) ==
       /\ WHi(st.rec[i], k, st.delay) < t
       /\ WLo(st.rec[i], 0, st.delay) >= SteadyFrom(st)     \* its 75 % point came after the browser was in steady state
       /\ <<i, k>> \notin st.sat
+
+(* "... and again at further 10 percent steps until it expires (each at most the configured inter-query delay late)": for a record
+   that is the only one the browser knows, that was learned once and never refreshed, and whose 75 % point came in steady state,
+   nothing interferes with its schedule (no other question, no rate limit, no re-scheduling), so the steps are exact: attempt k + 1
+   follows attempt k by a tenth of the TTL, unless that instant is not before the expiry.  st.chain remembers when an attempt was
+   made. *)
+Solo(st, i) == Cardinality(st.types) = 1 /\ i \in st.once /\ i \in st.soloed /\ \A j \in Ids \ {i} : st.rec[j] = None
+MissedChain(st, t) ==
+  \E x \in st.chain :
+      /\ x.k < 2 /\ Mine(st, x.i) /\ Solo(st, x.i) /\ <<x.i, x.k + 1>> \notin st.sat
+      /\ WLo(st.rec[x.i], 0, st.delay) >= SteadyFrom(st)
+      /\ 100 * st.rec[x.i].ttl >= st.delay
+      /\ x.a + 100 * st.rec[x.i].ttl + 1 < st.rec[x.i].c + 1000 * st.rec[x.i].ttl      \* the next step falls before the expiry
+      /\ x.a + 100 * st.rec[x.i].ttl + 2 < t                                              \* ... and is overdue
 
 (* ---- end of a query instant: the known answers of all its packets are judged together ---- *)
 RemainingOf(e, t) == (e.c + 1000 * e.ttl - t) \div 1000
@@ -84,6 +98,7 @@ Pre(st0, t) ==
   LET st == IF st0.qT >= 0 /\ st0.qT # t THEN CloseQuery(st0) ELSE st0 IN
   IF st.err # "" THEN st
   ELSE IF Bad(MissedDeadline(st, t), "C10_RefreshDue") THEN Fail(st, "C10_RefreshDue")
+  ELSE IF Bad(MissedChain(st, t), "C10_RescueChain") THEN Fail(st, "C10_RescueChain")
   ELSE st
 
 (* ------------------------------------------------------------------ queries heard from the link
@@ -125,7 +140,13 @@ OnRecv(st0, e) ==
     ELSE IF e.q THEN HeardQuery([st EXCEPT !.lastDid = e.did, !.lastProc = e.t, !.lastQU = e.qu], e)
     ELSE LET nr == Ingest(st.rec, e.items, e.t) IN
          [st EXCEPT !.lastDid = e.did, !.lastProc = e.t, !.lastQU = FALSE, !.rec = nr,
-                    !.sat = {p \in st.sat : nr[p[1]] = st.rec[p[1]]}]
+                    !.sat = {p \in st.sat : nr[p[1]] = st.rec[p[1]]},
+                    !.chain = {x \in st.chain : nr[x.i] = st.rec[x.i]},
+                    \* learned once: in the cache now, was not there before this datagram; any later sighting takes it out
+                    !.once = {i \in Ids : nr[i] # None /\ ((st.rec[i] = None) \/ (i \in st.once /\ nr[i] = st.rec[i]))},
+                    \* alone since it was learned: no other record known at any moment of its life so far
+                    !.soloed = {i \in Ids : nr[i] # None /\ (\A j \in Ids \ {i} : nr[j] = None /\ st.rec[j] = None)
+                                                          /\ ((st.rec[i] = None) \/ i \in st.soloed)}]
 
 PtrQs(e) == {e.qs[k] : k \in {j \in 1..Len(e.qs) : e.qs[j].rt = 12}}
 AskedTypes(e) == {q.ty : q \in PtrQs(e)}
@@ -171,6 +192,7 @@ Accumulate(st, e, t) ==
   [st EXCEPT !.qT = t, !.qKa = @ \cup {<<e.ka[k][1], e.ka[k][2]>> : k \in 1..Len(e.ka)},
              !.qTypes = @ \cup AskedTypes(e), !.qTc = e.tc,
              !.sat = @ \cup Served(st, AskedTypes(e), t),
+             !.chain = @ \cup {[i |-> p[1], k |-> p[2], a |-> t] : p \in Served(st, AskedTypes(e), t) \ st.sat},
              !.hist = [ty \in Tys |-> IF \E q \in PtrQs(e) : q.ty = ty /\ ~q.qu
                                         THEN [t |-> t, ka |-> KaIds(st, ty, t)] ELSE st.hist[ty]]]
 
@@ -210,7 +232,7 @@ Step(st0, e) ==
    ELSE CASE e.ev = "recv"    -> OnRecv(st1, e)
           [] e.ev = "query"   -> OnQuery(st1, e)
           [] e.ev = "bstart"  -> [CloseQuery(st1) EXCEPT !.active = TRUE, !.types = ToSet(e.types), !.delay = e.delay,
-                                                        !.forced = e.forced, !.bs = e.t, !.r = -1, !.nstart = 0, !.lastQ = -1, !.sat = {}]
+                                                        !.forced = e.forced, !.bs = e.t, !.r = -1, !.nstart = 0, !.lastQ = -1, !.sat = {}, !.chain = {}]
           [] e.ev = "rand"    -> IF e.site = "tc" THEN OnTcDraw(st1, e)
                                  ELSE IF e.site = "first" /\ st1.active /\ st1.r < 0 THEN [st1 EXCEPT !.r = e.v] ELSE st1
           [] e.ev = "reg"     -> [st1 EXCEPT !.canAns = @ \cup {e.ty}]
